@@ -101,6 +101,70 @@ func r03_1(c *Ctx, r *Report) {
 // parityOf: 0 even, 1 odd, -1 unknown.
 func parityOf(v ssa.Value, depth int) int { return parityIn(v, nil, depth) }
 
+// counterIn finds the loop counter (a phi with an edge phi+const) inside an index expression.
+func counterIn(v ssa.Value, depth int) *ssa.Phi {
+	if v == nil || depth > 6 {
+		return nil
+	}
+	switch x := v.(type) {
+	case *ssa.Phi:
+		for _, e := range x.Edges {
+			if bo, ok := e.(*ssa.BinOp); ok && bo.Op == token.ADD && bo.X == ssa.Value(x) {
+				return x
+			}
+		}
+	case *ssa.BinOp:
+		if p := counterIn(x.X, depth+1); p != nil {
+			return p
+		}
+		return counterIn(x.Y, depth+1)
+	}
+	return nil
+}
+
+// parCtx: an unexported helper reached from top through a chain of calls, with the parities of its
+// parameters as the arguments along that chain determine them.
+type parCtx struct {
+	fn   *ssa.Function
+	env  map[*ssa.Parameter]int
+	call *ssa.Call // the call in top the chain starts with
+}
+
+func parityContexts(top *ssa.Function) []parCtx {
+	var out []parCtx
+	var walk func(f *ssa.Function, env map[*ssa.Parameter]int, first *ssa.Call, depth int)
+	walk = func(f *ssa.Function, env map[*ssa.Parameter]int, first *ssa.Call, depth int) {
+		for _, b := range f.Blocks {
+			for _, ins := range b.Instrs {
+				call, ok := ins.(*ssa.Call)
+				if !ok {
+					continue
+				}
+				h := call.Common().StaticCallee()
+				if h == nil || h == top || h.Blocks == nil || h.Pkg != top.Pkg || h.Object() == nil || h.Object().Exported() {
+					continue
+				}
+				ne := map[*ssa.Parameter]int{}
+				for i, a := range call.Common().Args {
+					if i < len(h.Params) {
+						ne[h.Params[i]] = parityIn(a, env, 0)
+					}
+				}
+				fc := first
+				if fc == nil {
+					fc = call
+				}
+				out = append(out, parCtx{h, ne, fc})
+				if depth < 3 {
+					walk(h, ne, fc, depth+1)
+				}
+			}
+		}
+	}
+	walk(top, nil, nil, 0)
+	return out
+}
+
 // parityIn is parityOf with known parities for some parameters (those of a helper at one call site).
 func parityIn(v ssa.Value, env map[*ssa.Parameter]int, depth int) int {
 	if depth > 6 {
@@ -171,26 +235,14 @@ func r03_2(c *Ctx, r *Report) {
 					if !isSel {
 						continue
 					}
-					for _, b := range caller.Blocks {
-						for _, ins := range b.Instrs {
-							call, isCall := ins.(*ssa.Call)
-							if !isCall || call.Common().StaticCallee() != s.fn {
-								continue
-							}
-							env := map[*ssa.Parameter]int{}
-							for i, a := range call.Common().Args {
-								if i < len(s.fn.Params) {
-									env[s.fn.Params[i]] = parityOf(a, 0)
-								}
-							}
-							if !dependsOnParam(s.idx, 0) {
-								continue // an internal scan of the helper over all keys, not a selection made for this caller
-							}
-							n++
-							p := parityIn(s.idx, env, 0)
-							construct := uniq(seen, fmt.Sprintf("%s via %s: JIE_QI_IN_USE[%s]", fname(caller), fname(s.fn), describeIndex(s.idx)))
-							r.check(p == cw, rule, construct, c.pos(call.Pos()), fmt.Sprintf("index parity %s, required %s (even positions are Jie, odd positions are Qi)", map[int]string{0: "even", 1: "odd", -1: "unknown"}[p], map[int]string{0: "even", 1: "odd"}[cw]))
+					for _, ctx := range parityContexts(caller) {
+						if ctx.fn != s.fn || !dependsOnParam(s.idx, 0) {
+							continue // (an internal scan of the helper over all keys is not a selection made for this caller)
 						}
+						n++
+						p := parityIn(s.idx, ctx.env, 0)
+						construct := uniq(seen, fmt.Sprintf("%s via %s: JIE_QI_IN_USE[%s]", fname(caller), fname(s.fn), describeIndex(s.idx)))
+						r.check(p == cw, rule, construct, c.pos(ctx.call.Pos()), fmt.Sprintf("index parity %s, required %s (even positions are Jie, odd positions are Qi)", map[int]string{0: "even", 1: "odd", -1: "unknown"}[p], map[int]string{0: "even", 1: "odd"}[cw]))
 					}
 				}
 			}
@@ -721,22 +773,27 @@ func r03_8(c *Ctx, r *Report) {
 		// it gets the slice from (whose index parity is then judged with the arguments of this call)
 		f := ""
 		builder := fn
+		var entryIndex ssa.Value
 		env := map[*ssa.Parameter]int{}
-		for _, b := range fn.Blocks {
-			for _, ins := range b.Instrs {
-				call, ok := ins.(*ssa.Call)
-				if !ok || call.Common().StaticCallee() != near || len(call.Common().Args) < 3 {
-					continue
-				}
-				if hc, ok := call.Common().Args[2].(*ssa.Call); ok {
-					if h := hc.Common().StaticCallee(); h != nil && h.Blocks != nil && h.Object() != nil && !h.Object().Exported() {
-						builder = h
-						for i, a := range hc.Common().Args {
-							if i < len(h.Params) {
-								env[h.Params[i]] = parityOf(a, 0)
-							}
+		storesFromTable := func(h *ssa.Function) bool {
+			for _, b := range h.Blocks {
+				for _, ins := range b.Instrs {
+					if st, ok := ins.(*ssa.Store); ok && isStringType(st.Val.Type()) {
+						if _, isIA := st.Addr.(*ssa.IndexAddr); isIA {
+							return true
 						}
 					}
+				}
+			}
+			return false
+		}
+		if !storesFromTable(fn) {
+			// the list comes from an unexported helper (possibly through a delegating one): its index parity
+			// is judged with the arguments that reach it from this view
+			for _, ctx := range parityContexts(fn) {
+				if ctx.fn != near && storesFromTable(ctx.fn) {
+					builder, env = ctx.fn, ctx.env
+					break
 				}
 			}
 		}
@@ -760,6 +817,7 @@ func r03_8(c *Ctx, r *Report) {
 						if builder != fn && parityIn(ia.Index, env, 0) != parity {
 							f = "?"
 						}
+						entryIndex = ia.Index
 						continue
 					}
 				}
@@ -768,6 +826,41 @@ func r03_8(c *Ctx, r *Report) {
 		}
 		if f == "" || f == "?" {
 			r.bad(rule, construct, c.fnPos(fn), "the filter set is not built from JIE_QI_IN_USE entries (undecided = fail)")
+			continue
+		}
+		// how many entries: the counter inside the entry index runs from 0 by 1 while below a bound, which must
+		// evaluate (literal tables folded) to half the table
+		count := int64(-1)
+		if cnt := counterIn(entryIndex, 0); cnt != nil {
+			init, step := int64(-1), int64(0)
+			for _, e := range cnt.Edges {
+				if k, ok := constInt(e); ok {
+					init = k
+				} else if bo, ok := e.(*ssa.BinOp); ok && bo.Op == token.ADD && bo.X == ssa.Value(cnt) {
+					step, _ = constInt(bo.Y)
+				}
+			}
+			if iff, ok := cnt.Block().Instrs[len(cnt.Block().Instrs)-1].(*ssa.If); ok && init == 0 && step == 1 {
+				if bo, ok := iff.Cond.(*ssa.BinOp); ok {
+					x, y, op := bo.X, bo.Y, bo.Op
+					if y == ssa.Value(cnt) {
+						x, y, op = y, x, flipOp(op)
+					}
+					if x == ssa.Value(cnt) && (op == token.LSS || op == token.LEQ) {
+						if o, ok := evalWith(&evalFrame{fn: builder}, y, func(fr *evalFrame, v ssa.Value) (interface{}, bool) { return nil, false }); ok {
+							if k, isI := o.(int64); isI {
+								count = k
+								if op == token.LEQ {
+									count++
+								}
+							}
+						}
+					}
+				}
+			}
+		}
+		if count != int64(len(keys)/2) {
+			r.bad(rule, construct, c.fnPos(fn), fmt.Sprintf("the filter list holds %d entries (-1: not determined), half the table is %d: a shorter list silently drops the last terms of its kind", count, len(keys)/2))
 			continue
 		}
 		set := map[string]bool{}
